@@ -88,6 +88,10 @@ def play(es, serial, bus, close_raises, hist):
                     got = es.openPort()
                 elif call in ("openA", "openB"):
                     got = es.open_named_port(NAME_A if call == "openA" else NAME_B)
+                elif call == "version":
+                    got = es.queryVersion(held)
+                elif call == "listInfo":
+                    got = es.list_port_info()
                 elif call == "closeLast":
                     got = es.closePort(held)
                 else:
@@ -101,12 +105,18 @@ def play(es, serial, bus, close_raises, hist):
             held = got
             given.add(id(got))
         new = handles[before:]
+        ans, nstrings = "n/a", 0
+        if call == "version":
+            ans = "none" if got is None else ("line" if isinstance(got, str) and got.startswith("EBB") else "other:%r" % (got,))
+        if call == "listInfo":
+            ans = "none" if got is None else ("list" if isinstance(got, list) and got == [x for p in ports for x in p] else "other:%r" % (got,))
+            nstrings = len(got) if isinstance(got, list) else 0
         real = {"ret": (got.slot if isinstance(got, Handle) else (0 if got is None else -1)) if call.startswith("open") else 0,
-                "probes": new[0].probes if new else 0, "nhandles": len(handles),
+                "probes": new[0].probes if new else 0, "nhandles": len(handles), "ans": ans, "nstrings": nstrings,
                 "open": sorted(i + 1 for i, h in enumerate(handles) if h.open),
                 "leaked": sorted(i + 1 for i, h in enumerate(handles) if h.open and id(h) not in given),
                 "other_writes": sum(len(h.other_writes) for h in handles), "exception": exc}
-        model = {"ret": rec["ret"], "probes": rec["probes"], "nhandles": rec["nhandles"], "open": sorted(rec["open"]), "leaked": sorted(rec["leaked"]),
+        model = {"ret": rec["ret"], "probes": rec["probes"], "nhandles": rec["nhandles"], "ans": rec["ans"], "nstrings": rec["nstrings"], "open": sorted(rec["open"]), "leaked": sorted(rec["leaked"]),
                  "other_writes": 0, "exception": None}
         if real != model:
             diffs.append({"stage": "legacy_session", "bus": bus, "ports": ports, "close_raises": close_raises, "calls": [r["call"] for r in hist],
